@@ -216,7 +216,7 @@ func replaySpec(w core.Witness) string {
 
 func runSpec(r *core.Run, rtl bool) int {
 	r.ReplayKnown(replaySpec)
-	nPat := r.Pick(700, 14000)
+	nPat := r.Pick(900, 14000)
 	maxLen := r.Pick(5, 6)
 	nDirected := r.Pick(40, 120)
 	base := rand.New(rand.NewSource(r.Seed*7919 + 17)).Int63()
@@ -242,7 +242,7 @@ func runSpec(r *core.Run, rtl bool) int {
 		prof := specProfile(rng, icCapable, rtl)
 		g := gen.NewG(rng, prof)
 		var pat *gen.Pattern
-		if i%5 == 4 {
+		if i%3 == 2 {
 			// a shape template (search modes, rewrite side conditions) when it lies inside the fragment
 			t := &gen.T{R: rng, Let: prof.Letters}
 			for tries := 0; tries < 8 && pat == nil; tries++ {
